@@ -1,5 +1,6 @@
 """C12 -- the export does not depend on the capture container."""
 import collections, io, json, struct, sys
+import random, zlib
 from lib.common import *
 from lib import oracle, tlsgen, pool
 from lib.implrun import Impl, options_arg
@@ -72,7 +73,17 @@ def variants(rng, pk, dsb_text, hist):
                 extra = [("pre_idb", rng.choice(["nrb", "isb", "custom"])), (rng.randrange(len(pkts)) if pkts else "end", rng.choice(["nrb", "isb", "custom", "idb2", "bigcustom"])), ("end", "isb")]
             label = "pcapng %s-endian, if_tsresol %s%s%s" % ("little" if endian == "<" else "big", resol, ", extra blocks" if extra else "", "")
             use_pb = rng.randrange(4) == 0
-            out.append((label + (", obsolete packet blocks" if use_pb else ""), synth.pcapng(pkts, endian=endian, tsresol=resol, dsbs_before=[dsb_text] if dsb_text else (), extra_blocks=extra, use_pb=use_pb), False))
+            # the snap length an interface declares says nothing about the frames stored (writers that do not truncate store them whole); and
+            # interfaces on which nothing was captured -- any link type, any snap length -- may be described before the one that carries the packets
+            r2 = random.Random(zlib.crc32(repr((endian, str(resol), len(pkts))).encode()))
+            snap = r2.choice([262144, 0, 96, 1024, 65535])
+            idle = [(), (), ((0, 96),), ((113, 65535), (1, 64))][r2.randrange(4)]
+            if snap != 262144:
+                label += ", snap length %d declared" % snap
+            if idle:
+                label += ", %d idle interface(s) described first" % len(idle)
+            out.append((label + (", obsolete packet blocks" if use_pb else ""), synth.pcapng(pkts, endian=endian, tsresol=resol, dsbs_before=[dsb_text] if dsb_text else (), extra_blocks=extra, use_pb=use_pb,
+                                                                                            snaplen=snap, idle_first=idle), False))
     # a time offset: ticks relative to if_tsoffset (a few seconds at most, so that the three roundings stay far below half a microsecond);
     # with other resolutions too, and with the two options in either order
     base = min(t for t, _ in us) // 10 ** 6 - 5 if us else 0
@@ -88,7 +99,8 @@ def variants(rng, pk, dsb_text, hist):
         for endian in "<>":
             for nano in (False, True):
                 out.append(("legacy pcap %s-endian%s" % ("little" if endian == "<" else "big", ", nanosecond" if nano else ""),
-                            synth.pcap_legacy([(t // 10 ** 6, (t % 10 ** 6) * (1000 if nano else 1), f) for t, f in us], endian=endian, nano=nano), True))
+                            synth.pcap_legacy([(t // 10 ** 6, (t % 10 ** 6) * (1000 if nano else 1), f) for t, f in us], endian=endian, nano=nano,
+                                              snaplen=262144 if nano else (96 if endian == "<" else 0)), True))
     return out
 
 
